@@ -358,6 +358,60 @@ def run(ck: Check):
         ck.count("typed_reference_cases")
         if bad:
             ck.violation(dict(clause="incremental-equals-batch", regime="typed-reference", dtype=dt.__name__), dict(what="the incremental statistic differs from the batch KS statistic of (reference, last window_size values) when the reference array is not binary64", dtype=dt.__name__, window_size=w, reference=ref.tolist(), stream=stream, **bad))
+    # update() before fit() is rejected and does NOT count: after fit() the first window_size-1 updates give no result,
+    # the window_size-th gives the batch result of exactly those values
+    from frouros.detectors.data_drift.exceptions import MissingFitError as _MFE
+
+    for w in (3, 5):
+        ref = np.array([prng.gauss(0, 1) for _ in range(8)])
+        stream = [prng.gauss(0.5, 1) for _ in range(w + 2)]
+        d = IncrementalKSTest(window_size=w)
+        bad = None
+        try:
+            for _ in range(prng.choice([1, 3])):
+                try:
+                    d.update(value=0.25)
+                    bad = "update() on an unfitted detector did not raise MissingFitError"
+                except _MFE:
+                    pass
+            d.fit(X=ref)
+            for t, v in enumerate(stream, 1):
+                r, _ = d.update(value=v)
+                if t < w and r is not None:
+                    bad = f"a result was returned after only {t} values since fit (window_size={w})"
+                    break
+                if t >= w:
+                    e = _ks2(ref, stream[t - w : t])
+                    if r is None or not close(float(r.statistic), float(e.statistic), 1e-12, 1e-12):
+                        bad = f"step {t}: statistic {None if r is None else float(r.statistic)} != batch {float(e.statistic)}"
+                        break
+        except Exception as e:  # noqa: BLE001
+            bad = f"raised {e!r}"
+        ck.case(dict(kind="update-before-fit", window_size=w), nontrivial=True, key=repr(("ubf", w, stream)))
+        ck.count("update_before_fit_cases")
+        if bad:
+            ck.violation(dict(clause="warm-up", scenario="update-before-fit"), dict(what="updates rejected before fit() must not count towards the warm-up: " + bad, window_size=w, reference=ref.tolist(), stream=stream))
+    # reference sizes AT the boundary of the exact p-value (10 000) and large fully separated samples (the exact p-value
+    # underflows to 0.0, a legal p-value): incremental p == batch p, no update fails
+    for n_ref, w, shift in ((9999, 6, 0.3), (10000, 6, 0.3), (10001, 6, 0.3), (1000, 1000, 100.0), (400, 700, 50.0)):
+        ref = np.array([prng.random() for _ in range(n_ref)])
+        stream = [prng.random() + shift for _ in range(w)]
+        try:
+            d = IncrementalKSTest(window_size=w)
+            d.fit(X=ref)
+            r = None
+            for v in stream:
+                r, _ = d.update(value=v)
+            e = _ks2(ref, stream)
+            ok = r is not None and close(float(r.statistic), float(e.statistic), 1e-12, 1e-12) and (float(r.p_value) == float(e.pvalue) or close(float(r.p_value), float(e.pvalue), 1e-9, 1e-300))
+            got = None if r is None else (float(r.statistic), float(r.p_value))
+        except Exception as ex:  # noqa: BLE001
+            ok, got = False, repr(ex)
+            e = _ks2(ref, stream)
+        ck.case(dict(kind="boundary-sizes", n_ref=n_ref, window_size=w, p=float(e.pvalue)), nontrivial=True, key=repr(("bsz", n_ref, w)))
+        ck.count("boundary_size_cases")
+        if not ok:
+            ck.violation(dict(clause="incremental-equals-batch", regime="boundary-sizes", n_ref=n_ref), dict(what="incremental result differs from scipy.stats.ks_2samp(reference, window) (default method) or the update failed", n_ref=n_ref, window_size=w, shift=shift, got=got, expected=(float(e.statistic), float(e.pvalue))))
     exprs = [
         "(fix go (s : iks_st FloatA) (vs : list float) : list (option Z) := match vs with [] => [] | v :: r => match iks_update s v with "
         "Ok (s', o) => option_map fst o :: go s' r | Raise _ => [] end end) "
